@@ -362,9 +362,10 @@ func (c *c19Case) declare(e *c19Ev) {
 
 func c19Key2(e *c19Ev) string { return fmt.Sprintf("%d/%d", e.ev.Height(), e.h8) }
 
-// double-sign identity: who, where, and the unordered pair of targets
+// double-sign identity: who, where, and the unordered pair of signed vote contents
 func c19Sem(ev *types.DuplicateVoteEvidence) string {
-	ka, kb := ev.VoteA.BlockID.Key(), ev.VoteB.BlockID.Key()
+	ka := fmt.Sprintf("%s@%d", ev.VoteA.BlockID.Key(), ev.VoteA.Timestamp.UnixNano())
+	kb := fmt.Sprintf("%s@%d", ev.VoteB.BlockID.Key(), ev.VoteB.Timestamp.UnixNano())
 	if ka > kb {
 		ka, kb = kb, ka
 	}
@@ -1306,7 +1307,33 @@ func (c *c19Case) freshEvidence() *c19Ev {
 	return c.mkEvidence(h, c19Kinds[c.r.Intn(len(c19Kinds))])
 }
 
+// replayOf: the committed double-signing again, with another validator index in one vote
+func (c *c19Case) replayOf(e *c19Ev) *c19Ev {
+	cp := *e.ev
+	cp.VoteA, cp.VoteB = c19CopyVote(e.ev.VoteA), c19CopyVote(e.ev.VoteB)
+	if c.r.Chance(1, 2) {
+		cp.VoteA.ValidatorIndex += uint32(1 + c.r.Intn(5))
+	} else {
+		cp.VoteB.ValidatorIndex += uint32(1 + c.r.Intn(5))
+	}
+	return c.register(&cp, "replay-index")
+}
+
 func (c *c19Case) someEvidence() *c19Ev {
+	if c.r.Chance(1, 8) {
+		var com []*c19Ev
+		for _, e := range c.evs {
+			for _, nd := range c.nodes {
+				if nd.commitLog[c19Key2(e)] > 0 && c.truth(e.ev) == "" {
+					com = append(com, e)
+					break
+				}
+			}
+		}
+		if len(com) > 0 {
+			return c.replayOf(com[c.r.Intn(len(com))])
+		}
+	}
 	if len(c.evs) == 0 || c.r.Chance(1, 2) {
 		return c.freshEvidence()
 	}
@@ -1546,7 +1573,11 @@ func (c *c19Case) opGen(nd *c19Node) {
 	in := fmt.Sprintf("%d GEN %d 1 %s %d %s %s %s %d %d %s %s", nd.k, newid, c19Nanos(st.LastBlockTime), me+1, lt, c.valsTok(L), c.valsTok(H), hash, size, c.voteTok(va), c.voteTok(vb))
 	c.o.Op(in, res+genS+" "+c.proj(nd))
 	c.afterOp(nd, before, nil)
-	c.o.Count(fmt.Sprintf("gen:late=%v:%s", late, strings.SplitN(strings.TrimSpace(genS), ",", 2)[0]))
+	gk := strings.TrimSpace(genS)
+	if e != nil {
+		gk = "gen:evidence"
+	}
+	c.o.Count(fmt.Sprintf("gen:late=%v:%s", late, strings.SplitN(gk, ":", 3)[1]))
 	if e != nil {
 		c.gens = append(c.gens, e)
 		c.o.Mark(fmt.Sprintf("gen/late=%v/me-validator=%v", late, me != 5))
@@ -1621,6 +1652,11 @@ func (c *c19Case) tipNodes() []*c19Node {
 
 // extend creates the next block: a proposer picks evidence, every node at the tip validates it
 func (c *c19Case) extend() {
+	for _, nd := range c.nodes {
+		for !nd.dead && nd.height < c.tip() {
+			c.advance(nd)
+		}
+	}
 	tips := c.tipNodes()
 	if len(tips) == 0 {
 		return
@@ -1863,4 +1899,158 @@ func TestVerifC19(t *testing.T) {
 		}
 	}
 	o.Close()
+}
+
+// ---------------------------------------------------------------------------------------------
+// TestVerifC19Repro: the smallest deterministic instances of the C19 findings, on the real code
+// (go test -tags verif -overlay ... -run TestVerifC19Repro -v ./consensus/ -out <dir>).
+
+func (c *c19Case) commitOf(h uint64, idxs []int) *types.Commit {
+	vs := types.NewVoteSet(c19ChainID, h, 1, kproto.PrecommitType, c.sets[h])
+	for _, i := range idxs {
+		if _, err := vs.AddVote(c.blocks[h].precoms[i]); err != nil {
+			panic(err)
+		}
+	}
+	return vs.MakeCommit()
+}
+
+func TestVerifC19Repro(t *testing.T) {
+	if *c19Dir == "" {
+		t.Skip("-out required")
+	}
+	log.Root().SetHandler(log.DiscardHandler())
+	c19InitKeys()
+	o := c19Open(filepath.Join(*c19Dir, "repro"))
+	defer o.Close()
+	c := &c19Case{o: o, r: c19NewRand(7), members: map[uint64][]c19Member{}, sets: map[uint64]*types.ValidatorSet{}, sigs: map[string]*c19Sig{},
+		addrID: map[common.Address]int{}, byHash: map[common.Hash]*c19Ev{}}
+	for k, key := range c19Keys {
+		c.addrID[key.addr] = k + 1
+	}
+	c.params = *configs.DefaultConsensusParams()
+	// four validators of power 10 at every height
+	for h := uint64(1); h <= 8; h++ {
+		var ms []c19Member
+		var vals []*types.Validator
+		for k := 0; k < 4; k++ {
+			ms = append(ms, c19Member{key: k, power: 10})
+			vals = append(vals, types.NewValidator(c19Keys[k].addr, 10))
+		}
+		c.members[h] = ms
+		c.sets[h] = types.NewValidatorSet(vals)
+	}
+	c.bids = []types.BlockID{{}, {Hash: common.BytesToHash([]byte{1}), PartsHeader: types.PartSetHeader{Total: 1, Hash: common.BytesToHash([]byte{2})}},
+		{Hash: common.BytesToHash([]byte{3}), PartsHeader: types.PartSetHeader{Total: 1, Hash: common.BytesToHash([]byte{4})}}}
+	ghd := &types.Header{Height: 0, Time: c19Genesis, GasLimit: configs.BlockGasLimit, ValidatorsHash: c.sets[1].Hash(), NextValidatorsHash: c.sets[1].Hash()}
+	gb := types.NewBlock(ghd, nil, &types.Commit{}, nil, trie.NewStackTrie(nil))
+	gp := gb.MakePartSet(types.BlockPartSizeBytes)
+	c.blocks = []*c19Block{{height: 0, block: gb, parts: gp, bid: types.BlockID{Hash: gb.Hash(), PartsHeader: gp.Header()}, time: c19Genesis}}
+	o.Case(0, "CASE 0")
+	c.nodes = make([]*c19Node, 2)
+	A, B := c.newNode(0), c.newNode(1)
+	c.nodes[0], c.nodes[1] = A, B
+
+	// block 1, then precommits for it with four distinct timestamps
+	b1 := c.newBlock(nil)
+	for i := range b1.precoms {
+		b1.precoms[i] = c.signVote(c.keyOf(c.sets[1].Validators[i].Address), c19ChainID, kproto.PrecommitType, 1, 1, b1.bid, b1.time.Add(time.Duration(i+1)*time.Second), uint32(i))
+	}
+	apply := func(nd *c19Node, h uint64, seen *types.Commit) {
+		blk := c.blocks[h]
+		rawdb.WriteBlock(nd.db, blk.block, blk.parts, seen)
+		nd.store.Save(blk.state)
+		rawdb.WriteHeadBlockHash(nd.db, blk.block.Hash())
+		var l types.EvidenceList
+		for _, e := range blk.evs {
+			l = append(l, e.ev)
+		}
+		nd.pool.Update(blk.state, l)
+		nd.height, nd.metaH, nd.seen[h] = h, h, seen
+	}
+	// A saw the precommits of validators 0,1,2 for block 1; B saw 1,2,3
+	apply(A, 1, c.commitOf(1, []int{0, 1, 2}))
+	apply(B, 1, c.commitOf(1, []int{1, 2, 3}))
+
+	// A is at height 2 and receives two conflicting prevotes of validator index 3 for height 2
+	gen := func(nd *c19Node, vh uint64, typ kproto.SignedMsgType, first *types.Vote) types.Evidence {
+		rec := &c19RecPool{pool: nd.pool}
+		bo := &c19BlockOps{nd: nd}
+		logger := log.New()
+		be := cstate.NewBlockExecutor(nd.store, logger, rec, bo)
+		var cs *ConsensusState
+		for try := 0; cs == nil && try < 50; try++ {
+			c19Guard(func() { cs = NewConsensusState(logger, configs.TestConsensusConfig(), c.stateAt(nd.height).Copy(), bo, be, rec) })
+		}
+		cs.timeoutTicker = c19Ticker{}
+		eb := types.NewEventBus()
+		eb.SetLogger(logger)
+		eb.Start()
+		defer eb.Stop()
+		cs.SetEventBus(eb)
+		cs.SetPrivValidator(c19Keys[5].pv)
+		ek := c.keyOf(c.sets[vh].Validators[3].Address)
+		now := c.blocks[nd.height].time.Add(5 * time.Second)
+		if first == nil {
+			first = c.signVote(ek, c19ChainID, typ, vh, 1, c.bids[1], now, 3)
+			if added, err := cs.tryAddVote(first, "p"); !added || err != nil {
+				t.Fatalf("first vote: %v %v", added, err)
+			}
+		}
+		second := c.signVote(ek, c19ChainID, typ, vh, 1, c.bids[2], now, 3)
+		_, err := cs.tryAddVote(second, "p")
+		if _, ok := err.(*types.ErrVoteConflictingVotes); !ok {
+			t.Fatalf("no conflict: %v", err)
+		}
+		if len(rec.got) != 1 {
+			t.Fatalf("evidence handed to the pool: %d", len(rec.got))
+		}
+		return rec.got[0]
+	}
+	ev := gen(A, 2, kproto.PrevoteType, nil)
+	fmt.Printf("D1  A's evidence for height 2: timestamp %v (= weighted median of A's own LastCommit)\n", ev.Time())
+
+	// block 2 is proposed by someone who saw precommits 1,2,3 of block 1; both nodes commit it
+	h := &types.Header{Height: 2, LastBlockID: b1.bid, ProposerAddress: c.sets[2].Validators[0].Address, ValidatorsHash: c.sets[2].Hash(), NextValidatorsHash: c.sets[3].Hash(), GasLimit: configs.BlockGasLimit}
+	commit := c.commitOf(1, []int{1, 2, 3})
+	h.Time = cstate.MedianTime(commit, c.sets[1])
+	blk := types.NewBlock(h, nil, commit, nil, trie.NewStackTrie(nil))
+	parts := blk.MakePartSet(types.BlockPartSizeBytes)
+	b2 := &c19Block{height: 2, block: blk, parts: parts, bid: types.BlockID{Hash: blk.Hash(), PartsHeader: parts.Header()}, time: h.Time}
+	c.blocks = append(c.blocks, b2)
+	b2.state = c.stateAt(2)
+	for i := range c.sets[2].Validators {
+		b2.precoms = append(b2.precoms, c.signVote(c.keyOf(c.sets[2].Validators[i].Address), c19ChainID, kproto.PrecommitType, 2, 1, b2.bid, b2.time.Add(time.Duration(i+1)*time.Second), uint32(i)))
+	}
+	fmt.Printf("D1  block 2 header time:       %v (= weighted median of the proposer's LastCommit)\n", b2.time)
+	errB0 := B.pool.CheckEvidence(types.EvidenceList{ev})
+	fmt.Printf("D3  before block 2 exists, B.CheckEvidence([evA]) (A proposing its evidence at height 2): %v\n", c19Class(errB0))
+	apply(A, 2, c.commitOf(2, []int{1, 2, 3}))
+	apply(B, 2, c.commitOf(2, []int{0, 1, 2}))
+	fmt.Printf("D1  after block 2, B.AddEvidence(evA):    %v\n", c19Class(B.pool.AddEvidence(ev)))
+	fmt.Printf("D1  after block 2, B.CheckEvidence([evA]): %v\n", c19Class(B.pool.CheckEvidence(types.EvidenceList{ev})))
+	fmt.Printf("D1  after block 2, A.CheckEvidence([evA]): %v (pending at A: fast path)\n", c19Class(A.pool.CheckEvidence(types.EvidenceList{ev})))
+	fmt.Printf("    harness truth of evA: %q\n", c.truth(ev.(*types.DuplicateVoteEvidence)))
+
+	// D2: a late conflicting precommit for height 2 while A waits in NewHeight of height 3
+	ev2 := gen(A, 2, kproto.PrecommitType, b2.precoms[3])
+	fmt.Printf("D2  late precommit conflict at height 2: evidence timestamp %v, block 2 time %v, B.AddEvidence: %v\n", ev2.Time(), b2.time, c19Class(B.pool.AddEvidence(ev2)))
+
+	// D4: the proposer's selection with the default parameters
+	good := c.mkEvidence(2, "valid")
+	fmt.Printf("D4  B.AddEvidence(valid evidence of height 2): %v, proto size %d\n", c19Class(B.pool.AddEvidence(good.ev)), c19EvSize(good.ev))
+	maxNum, maxBytes := types.MaxEvidencePerBlock(c.params.Evidence.MaxBytes)
+	l, _ := B.pool.PendingEvidence(maxNum)
+	all, _ := B.pool.PendingEvidence(-1)
+	fmt.Printf("D4  MaxEvidencePerBlock(%d) = (num %d, bytes %d); CreateProposalBlock calls PendingEvidence(%d): %d of %d pending evidence proposed\n",
+		c.params.Evidence.MaxBytes, maxNum, maxBytes, maxNum, len(l), len(all))
+
+	// D5: the same double-signing accepted and committed again with another validator index
+	replay := *good.ev
+	replay.VoteA = c19CopyVote(good.ev.VoteA)
+	replay.VoteA.ValidatorIndex = 7
+	B.pool.Update(func() cstate.LatestBlockState { s := c.stateAt(2); s.LastBlockHeight = 3; return s }(), types.EvidenceList{good.ev})
+	fmt.Printf("D5  after committing the evidence, B.CheckEvidence([same]) : %v\n", c19Class(B.pool.CheckEvidence(types.EvidenceList{good.ev})))
+	fmt.Printf("D5  same votes, VoteA.ValidatorIndex 3 -> 7: hash changes %v, B.CheckEvidence: %v, B.AddEvidence: %v\n",
+		replay.Hash() != good.ev.Hash(), c19Class(B.pool.CheckEvidence(types.EvidenceList{&replay})), c19Class(B.pool.AddEvidence(&replay)))
 }
